@@ -9,8 +9,8 @@
 #include "c10_ossl_peer.h"
 using namespace vf; using namespace mxh; using namespace c10;
 
-enum { D_NONE, D_INT_OK, D_EXPIRED, D_NOTYET, D_WRONGNAME, D_UNKNOWNCA, D_BADSIG, D_INT_NOTCA, D_INT_NOSIGN, D_DEPTH, D_EXPIRED_AND_UNKNOWNCA, D_EXPIRED_LEAF_UNANCHORED_CHAIN, D_TBS_ALTERED, D_REVOKED, D_CRL_OTHER_SERIALS, D_N };
-static const char *dname[] = { "none", "valid-intermediate", "expired", "not-yet-valid", "wrong-name", "unknown-ca", "bad-signature", "intermediate-not-ca", "intermediate-without-keyCertSign", "max-verify-depth-exceeded", "expired+unknown-ca", "expired-leaf-in-unanchored-chain", "tbs-altered-under-genuine-signature", "revoked-by-authenticated-crl", "crl-loaded-but-not-listing-the-peer" };
+enum { D_NONE, D_INT_OK, D_EXPIRED, D_NOTYET, D_WRONGNAME, D_UNKNOWNCA, D_BADSIG, D_INT_NOTCA, D_INT_NOSIGN, D_DEPTH, D_EXPIRED_AND_UNKNOWNCA, D_EXPIRED_LEAF_UNANCHORED_CHAIN, D_TBS_ALTERED, D_REVOKED, D_CRL_OTHER_SERIALS, D_EKU_NOT_TLS, D_N };
+static const char *dname[] = { "none", "valid-intermediate", "expired", "not-yet-valid", "wrong-name", "unknown-ca", "bad-signature", "intermediate-not-ca", "intermediate-without-keyCertSign", "max-verify-depth-exceeded", "expired+unknown-ca", "expired-leaf-in-unanchored-chain", "tbs-altered-under-genuine-signature", "revoked-by-authenticated-crl", "crl-loaded-but-not-listing-the-peer", "critical-extended-key-usage-without-tls-usage" };
 enum { CB_NONE, CB_STRICT, CB_PERMISSIVE, CB_ANON, CB_PICKY_EXPIRED, CB_N };
 static const char *cbname[] = { "no-callback", "strict", "permissive", "anon", "picky(expired-only)" };
 
@@ -41,11 +41,14 @@ static void prop(Tape &t, Ctx &c) {
     uint32_t es = t.u16();
     // RSASSA-PSS signed leaf (RSA key, ca_rsa issuer): only the two defects that exist for it (gen4.sh)
     bool pss = rsa && t.chance(1, 3); const char *CT = pss ? "pss" : T;
+    // a verifying client may or may not ask for a name check (expectedName NULL): without one a wrong name is not a defect
+    bool name_check = !client_verifies || !t.chance(1, 3);
     if (pss && defect != D_NONE && defect != D_TBS_ALTERED && defect != D_REVOKED && defect != D_CRL_OTHER_SERIALS) defect = (defect & 1) ? D_TBS_ALTERED : D_NONE;
     std::string D = verif_dir() + "/props/C04/pki/", P = verif_dir() + "/pki/";
     std::string pc, pk;   // presented credential
     switch (defect) {
     case D_NONE: case D_REVOKED: case D_CRL_OTHER_SERIALS: pc = D + "good_" + CT + ".pem"; pk = D + "good_" + CT + ".key"; break;
+    case D_EKU_NOT_TLS: pc = D + "ekucs_" + T + ".pem"; pk = D + "ekucs_" + T + ".key"; break;
     case D_TBS_ALTERED: pc = D + "tbsaltered_" + CT + ".pem"; pk = D + "tbsaltered_" + CT + ".key"; break;
     case D_INT_OK: case D_DEPTH: pc = D + "chain_ica_" + T + ".pem"; pk = D + "via_ica_" + T + ".key"; break;
     case D_EXPIRED: pc = D + "expired_" + T + ".pem"; pk = D + "expired_" + T + ".key"; break;
@@ -59,13 +62,13 @@ static void prop(Tape &t, Ctx &c) {
     case D_INT_NOSIGN: pc = D + "chain_ica_nosign_" + T + ".pem"; pk = D + "via_ica_nosign_" + T + ".key"; break;
     }
     std::string ca = P + "ca_" + T + ".pem";
-    std::string desc = fmt("%s %s-verifies callback=%s defect=%s", CT, client_verifies ? "client" : "server", cbname[cb], dname[defect]);
+    std::string desc = fmt("%s %s-verifies%s callback=%s defect=%s", CT, client_verifies ? "client" : "server", name_check ? "" : "(no expected name)", cbname[cb], dname[defect]);
     c.sample(desc); if (c.verbose) fprintf(stderr, "case: %s\n", desc.c_str());
     // presenter = in-process OpenSSL endpoint (it sends whatever chain it is given, MatrixSSL refuses to present some defective
     // credentials of its own); verifier = MatrixSSL with the good CA as trust anchor
     KG verifier{ client_verifies ? load("", "", ca) : load(D + "good_" + T + ".pem", D + "good_" + T + ".key", ca) };
     if (!verifier.k) { c.count("verifier-keys-refused-at-load"); return; }
-    bool defect_present = !(defect == D_NONE || defect == D_INT_OK || defect == D_CRL_OTHER_SERIALS);
+    bool defect_present = !(defect == D_NONE || defect == D_INT_OK || defect == D_CRL_OTHER_SERIALS || (defect == D_WRONGNAME && !name_check));
     // CRLs (gen5.sh): the application loads the CA's CRL into the library's CRL cache and authenticates it against the CA, the way
     // apps/ssl/client.c does; "revoked" lists the serial of the otherwise good leaf, "other serials" is an empty CRL of the same CA.
     std::string crl_file = defect == D_REVOKED ? D + "crl_revoked_" + T + ".der" : defect == D_CRL_OTHER_SERIALS ? D + "crl_empty_" + T + ".der" : "";
@@ -94,7 +97,7 @@ static void prop(Tape &t, Ctx &c) {
         oc.legacy_server_connect = true;
         std::string err; auto octx = OsslCtx::create(oc, &err);
         if (!octx) { outcome[vi] = -1; alerts[vi] = -1; c.count("openssl-refused-config"); if (c.verbose) fprintf(stderr, "  openssl refused: %s\n", err.c_str()); continue; }
-        Endpoint V; Config vc; vc.client = client_verifies; vc.versions = { ver }; vc.entropy_stream = 1; vc.keys = verifier.k; vc.expected_name = "localhost";
+        Endpoint V; Config vc; vc.client = client_verifies; vc.versions = { ver }; vc.entropy_stream = 1; vc.keys = verifier.k; vc.expected_name = name_check ? "localhost" : nullptr;
         if (client_verifies) { vc.suites = { suite }; vc.cert_cb = cb == CB_NONE ? nullptr : the_cb; }
         else { vc.client_auth = true; vc.cert_cb = the_cb; }
         if (defect == D_DEPTH) vc.tweak = [](sslSessOpts_t &o) { o.validateCertsOpts.max_verify_depth = 2; };
